@@ -1574,6 +1574,24 @@ SoPlexBase<R>& SoPlexBase<R>::operator=(const SoPlexBase<R>& rhs)
          _rationalLUSolverBind = rhs._rationalLUSolverBind;
       }
 
+      // copy counters of the persistent-scaling heuristic
+      _optimizeCalls = rhs._optimizeCalls;
+      _unscaleCalls = rhs._unscaleCalls;
+
+      // the bases remembered for precision boosting are not copied, so the copy starts without them
+#ifdef SOPLEX_WITH_MPFR
+      _lastStallPrecBoosts = 0;
+      _factorSolNewBasisPrecBoost = true;
+      _nextRatrecPrecBoost = 0;
+      _prevIterations = 0;
+      _switchedToBoosted = false;
+      _certificateMode = 0;
+      _hasOldBasis = false;
+      _hasOldFeasBasis = false;
+      _hasOldUnbdBasis = false;
+      _boostingLimitReached = false;
+#endif
+
       // copy boolean flags
       _isRealLPLoaded = rhs._isRealLPLoaded;
       _isRealLPScaled = rhs._isRealLPScaled;
